@@ -74,6 +74,33 @@ class Stream:
                 self.ctx.count('projection_failed')
         return out
 
+    def tagged_foreign_object(self, spec, m, sp):
+        rng = self.rng
+        plains = [c['name'] for c in spec['classes']
+                  if c.get('kind', 'plain') in ('plain', 'dataclass')
+                  and c.get('registered', True) and not m.is_abstract(
+                      c['name']) and not c.get('parsed')]
+        if not plains:
+            return None
+        cname = rng.choice(plains)
+        g = V.Gen(m, rng, ('look',), finite=True)
+        try:
+            obj = g.instance(cname, 2)
+            osp = D.spec_of(D.proj(m, obj, sweeten=rng.random() < 0.7))
+        except (V.NoValue, RecursionError, ValueError, TypeError):
+            return None
+        if osp[0] != 'map':
+            return None
+        osp = osp[:2] + ['!' + type(obj).__name__]
+        cands = [p for p, sub in D.paths(sp)
+                 if (not p or p[-1][0] != 'k') and sub[0] in ('map', 's')]
+        if not cands:
+            return None
+        # roots, list items and dict values rather than deep attributes
+        cands.sort(key=len)
+        p = rng.choice(cands[:max(1, len(cands) // 2)])
+        return D.set_at(sp, p, osp)
+
     def cases(self, spec, m, n_values=2):
         """Yield (text, meta) for one model."""
         rng = self.rng
@@ -99,6 +126,18 @@ class Stream:
                 texts.append(text)
                 yield text, {'origin': 'mutant', 'what': '+'.join(what),
                              'style': style, 'spec': msp}
+            if self.mutants and rng.random() < 0.4:
+                # a structurally valid object of some registered class,
+                # explicitly tagged as that class, where the document has
+                # something else (or the whole document)
+                f2 = self.tagged_foreign_object(spec, m, sp)
+                if f2 is not None:
+                    try:
+                        yield D.render(f2, rng.choice(['block', 'flow'])), {
+                            'origin': 'mutant',
+                            'what': 'tagged-foreign-object', 'spec': f2}
+                    except (ValueError, RecursionError):
+                        pass
             if self.mutants and rng.random() < 0.35:
                 d2 = D.dup_int_as_bool(sp, rng)
                 if d2 is not None:
